@@ -205,6 +205,14 @@ def check(s):
     extra = sorted(m_ for m_ in gx.methods if m_ in ("step", "reset"))
     s.ob("C01.8", "LeraxToGymnaxEnv", not extra, "the gymnax adapter implements step_env / reset_env only and leaves gymnax's step / reset (episode clock restart) in place", P.loc(gx.module, gx.node),
          key="gymnax-step-override", detail=", ".join(extra), necessary_for="after an episode end the returned state is a fresh initial state with its clocks and counters restarted")
+    # gymnax jits its public step / reset with `self` as a static argument: two adapters that compare equal share one compiled program,
+    # so an adapter's equality must not ignore the environment it adapts (a second adapter around a differently configured environment
+    # would otherwise step the FIRST one's transition, flags and reset)
+    from ..effects import incomplete_equality
+    ie = [x for x in incomplete_equality(P) if x[0].startswith("lerax.compatibility.")]
+    s.ob("C01.8", "adapters.__eq__", not ie, "no adapter defines an equality that ignores part of its state (the adapted environment)", ie[0][1] + f":{ie[0][2]}" if ie else gx.module.relpath,
+         key="adapter-equality", detail="; ".join(f"{q} ignores {', '.join(ms)}" for q, _, _, ms in ie),
+         necessary_for="the reward, flags and successor reported are those of the transition taken by THIS environment")
     # ---------------------------------------------------------------- C01.9 wrapper stacks: the signals step composes
     # step calls self.transition / reward / terminal / truncate / observation / initial; on a wrapper stack these are the wrapper's
     # methods, so "the flags of exactly the transition taken" needs every wrapper to hand the inner signal through (TimeLimit: OR-ed
